@@ -214,6 +214,9 @@ func (n *names) real(tok string) string {
 	switch {
 	case tok == "LONG":
 		r = strings.Repeat("L", 256)
+	case strings.HasPrefix(tok, "NL") && len(tok) == 5: // NL240 ... NL255: a name of exactly that many bytes
+		k, _ := strconv.Atoi(tok[2:])
+		r = tok + strings.Repeat("n", k-len(tok))
 	case strings.HasPrefix(tok, "BS"):
 		r = tok + "\\..." // an ordinary name on Linux that happens to end in \...
 	case n.tbl == 0:
@@ -282,6 +285,9 @@ func (n *names) tok(real string) string {
 
 // render turns an argument (token components incl. "", ".", "..") into the string passed to the API.
 func (s *scen) render(a *Arg) string {
+	if a.Raw != "" {
+		return a.Raw
+	}
 	parts := make([]string, len(a.C))
 	for i, c := range a.C {
 		parts[i] = s.names.real(c)
@@ -311,6 +317,10 @@ func (s *scen) tokPath(name string) []string {
 	var out []string
 	rest := name
 	switch {
+	case name == "/": // the file system root itself, watched as such (token FSROOT; "/" stands for the scenario's own root)
+		return []string{"FSROOT"}
+	case strings.HasPrefix(name, "//"):
+		return []string{"FSROOT", s.names.tok(name[2:])}
 	case name == s.root:
 		return []string{"/"}
 	case strings.HasPrefix(name, s.root+"/"):
@@ -733,6 +743,10 @@ func (s *scen) exec(st *Step) {
 			s.children = append(s.children, c)
 		}
 		s.emit(J{"k": "spawn", "ok": err == nil})
+	case "sleep":
+		// the consumer is away for a while (wall-clock time): nothing the library keeps may expire
+		time.Sleep(time.Duration(st.N) * time.Millisecond)
+		s.emit(J{"k": "sleep", "ms": st.N})
 	case "shadowmask":
 		if st.Ops != nil {
 			s.sh.extra = uint32(*st.Ops)
@@ -854,6 +868,20 @@ func (s *scen) doFs(st *Step) (ret, ino, kind string, recs []rec) {
 	recs = []rec{}
 	after := func() { recs = append(recs, s.sh.drain()...) }
 	switch st.Op {
+	case "fsroot": // make the file system root a known object (a watch on "/" is about to be added)
+		p = "/"
+		if t, _, _ := s.inoOf(p, false); t == "?" {
+			ino = s.newIno(p)
+			s.sh.add(p, ino)
+		}
+		kind = "dir"
+	case "chmodfsroot": // chmod / to the mode it has: IN_ATTRIB on the root itself, nothing changes
+		p = "/"
+		var fi os.FileInfo
+		if fi, err = os.Stat(p); err == nil {
+			err = os.Chmod(p, fi.Mode().Perm())
+		}
+		ino, kind, _ = s.inoOf(p, false)
 	case "create":
 		var f *os.File
 		f, err = os.OpenFile(p, os.O_CREATE|os.O_EXCL|os.O_WRONLY, 0o644)
@@ -1274,6 +1302,8 @@ func (s *scen) stepDrain(st *Step) {
 	if max == 0 {
 		max = 1 << 20
 	}
+	const errFlood = 300
+	nerr, flood := 0, false
 	if st.Free {
 		// free-running consumer: receives while the reader is still working through its batch
 		pause := time.Duration(st.PauseUs) * time.Microsecond
@@ -1308,6 +1338,10 @@ func (s *scen) stepDrain(st *Step) {
 					v := errVal(err)
 					v["ch"] = "err"
 					vals = append(vals, v)
+					if nerr++; nerr > errFlood {
+						end = "flood" // an endless stream of errors: what was received is judged, the rest is not waited for
+						goto done
+					}
 				}
 			case <-time.After(300 * time.Microsecond):
 				if !s.quiesce() {
@@ -1361,6 +1395,10 @@ func (s *scen) stepDrain(st *Step) {
 			if v["t"] != "none" {
 				vals = append(vals, v)
 				got = true
+				if nerr++; nerr > errFlood && v["t"] == "err" {
+					flood = true // an endless stream of errors: what was received is judged, the rest is not waited for
+					break
+				}
 			}
 		}
 		if w.evClosed && w.errClosed {
@@ -1381,6 +1419,9 @@ func (s *scen) stepDrain(st *Step) {
 	}
 	if st.Only != "" && end == "idle" {
 		end = "partial" // the other channel was not looked at: nothing is settled
+	}
+	if flood {
+		end = "flood"
 	}
 	if len(vals) >= max {
 		end = "max"
